@@ -271,5 +271,15 @@ static cs_scenario_t scenarios[] = {
 int main(int argc, char **argv)
 {
     if (NDEFS != (int)(sizeof(scenarios) / sizeof(scenarios[0]))) return 2;
-    return cs_main(argc, argv, "C32", scenarios, NDEFS, setup);
+    /* C32_SET=name,name,... restricts the run to a subset (check.py explores groups at different bounds); replay sees all */
+    const char *set = getenv("C32_SET"); int n = NDEFS;
+    if (set && *set) {
+        n = 0;
+        for (int i = 0; i < NDEFS; i++) {
+            const char *q = strstr(set, scenarios[i].name); size_t l = strlen(scenarios[i].name);
+            if (q && (q == set || q[-1] == ',') && (q[l] == 0 || q[l] == ',')) scenarios[n++] = scenarios[i];
+        }
+        if (n == 0) { fprintf(stderr, "C32: C32_SET selects no scenario\n"); return 2; }
+    }
+    return cs_main(argc, argv, "C32", scenarios, n, setup);
 }
